@@ -34,6 +34,7 @@ TYS = {
     "vec_inner": ("Vec<Inner>", ["vec![Inner::v1()]", "vec![]"], True, False, False),
     "tup": ("(i32, String)", ['(1, "a".to_string())'], True, False, False),
     "arr2": ("[i32; 2]", ["[1, 2]"], True, False, False),
+    "arr_nested": ("[[u8; 32]; 3]", ["[[1u8; 32]; 3]"], True, False, False),        # (each level a tuple: 32 and 3 are below the limit, their product is not)
     "map": ("BTreeMap<String, i32>", ['BTreeMap::from([("k".to_string(), 1)])', "BTreeMap::new()"], True, True, False),
     "map_i": ("BTreeMap<i32, Inner>", ["BTreeMap::from([(5, Inner::v1())])", "BTreeMap::new()"], True, False, False),
     "map_e": ("BTreeMap<UnitE, i32>", ["BTreeMap::from([(UnitE::A, 1)])", "BTreeMap::new()"], True, False, False),
